@@ -128,6 +128,7 @@ type Exec struct {
 	pendingEnv0 *SpecEnv
 	callCells   map[string]*Cell // ghost counters: calls("pattern")
 	ifaceVals   map[*Term]Val    // interface id -> boxed value (Go side)
+	inlinedInstr int
 	pendingSummaries []*wset // write sets of summarised callees: heaps first touched later must still be havocked
 	havocEpoch  int
 }
